@@ -306,6 +306,10 @@ func (c *Ctx) callEffects(ins ssa.CallInstruction, l *Loop, top bool, seen map[*
 		}
 	}
 	if fn == nil {
+		if sp := c.funcTypeSpec(cc.Value.Type()); sp != nil {
+			c.specEffects(sp, nil, cc, l)
+			return
+		}
 		pn := paramNameOf(cc.Value)
 		if spn, ok := c.Spec.CallSpecs[pn]; ok && pn != "" {
 			if sp := c.SS.Funcs["funcspec::"+spn]; sp != nil {
